@@ -18,27 +18,37 @@ Proof. split; vm_compute; reflexivity. Qed.
 
 (* ------------------------------------------------------------------ 2. the swap *)
 
-Theorem swap_log_exact mk mi b :
-  r_shrinking (b_run b) = true -> sh_done (r_sh (b_run b)) = true ->
-  let b' := bstep mk mi final_ops b BFinal in
-  b_buf b' = [] /\ b_file b' = newfile (b_run b) /\ b_run b' = end_rewrite (b_run b).
+Theorem swap_log_exact mk mi g b :
+  r_shrinking (b_run b) = true -> sh_done (r_sh (b_run b)) = true -> b_reset b = false ->
+  let b' := bstep mk mi final_ops g b BFinal in
+  b_buf b' = [] /\ b_file b' = newfile (b_run b) /\ b_run b' = end_rewrite (b_run b) /\ b_reset b' = false.
 Proof.
-  intros Hs Hd. cbn [bstep]. unfold final_with. rewrite Hs, Hd. cbn. repeat split.
+  intros Hs Hd Hr. cbn [bstep]. unfold final_with. rewrite Hs, Hd, Hr, andb_false_r. cbn. repeat split.
 Qed.
 
 Theorem swap_log_exact_src mk mi b :
-  r_shrinking (b_run b) = true -> sh_done (r_sh (b_run b)) = true ->
-  let b' := bstep mk mi final_ops_src b BFinal in
+  r_shrinking (b_run b) = true -> sh_done (r_sh (b_run b)) = true -> b_reset b = false ->
+  let b' := bstep mk mi final_ops_src final_guard_src b BFinal in
   blog b' = newfile (b_run b) /\ b_buf b' = [].
 Proof.
-  intros Hs Hd. rewrite (proj1 final_section_transcribed).
-  destruct (swap_log_exact mk mi b Hs Hd) as [Hb [Hf _]]. cbv zeta in *.
+  intros Hs Hd Hr. rewrite (proj1 final_section_transcribed).
+  destruct (swap_log_exact mk mi final_guard_src b Hs Hd Hr) as [Hb [Hf _]]. cbv zeta in *.
   unfold blog. rewrite Hb, Hf, app_nil_r. split; reflexivity.
 Qed.
 
+(* the dataset was reset under the rewrite: the final section gives up, the open log stays what it is *)
+Theorem reset_aborts mk mi ops b :
+  r_shrinking (b_run b) = true -> sh_done (r_sh (b_run b)) = true -> b_reset b = true ->
+  let b' := bstep mk mi ops true b BFinal in
+  b_file b' = b_file b /\ b_buf b' = b_buf b /\ b_run b' = end_rewrite (b_run b) /\ b_reset b' = false.
+Proof. intros Hs Hd Hr. cbn [bstep]. unfold final_with. rewrite Hs, Hd, Hr. cbn. repeat split. Qed.
+
+Lemma guard_transcribed : final_guard_src = true.
+Proof. vm_compute. reflexivity. Qed.
+
 (* not at the right moment: nothing happens *)
-Lemma final_not_ready mk mi ops b :
-  r_shrinking (b_run b) && sh_done (r_sh (b_run b)) = false -> bstep mk mi ops b BFinal = b.
+Lemma final_not_ready mk mi ops g b :
+  r_shrinking (b_run b) && sh_done (r_sh (b_run b)) = false -> bstep mk mi ops g b BFinal = b.
 Proof. intros H. cbn [bstep]. unfold final_with. rewrite H. reflexivity. Qed.
 
 (* the directory part is Shrink.crash_at; past the first operation the buffer is empty; the file that
@@ -92,7 +102,13 @@ Definition ghost (r : run) : Prop :=
 
 Definition binv (b : bsrv) : Prop :=
   wf (r_live (b_run b)) /\ forallb nr_cmd (blog b) = true /\
-  same_data (replay (blog b) []) (r_live (b_run b)) /\ ghost (b_run b).
+  same_data (replay (blog b) []) (r_live (b_run b)) /\ (b_reset b = false -> ghost (b_run b)).
+
+Lemma ghost_idle r : r_shrinking r = false -> ghost r.
+Proof. intros H H'. congruence. Qed.
+
+Lemma keep_reset_false b : keep_reset b = false -> b_reset b = false -> ghost (b_run b) -> ghost (b_run b).
+Proof. auto. Qed.
 
 Lemma ghost_ev r e : wf (r_live r) -> is_rename e = false -> ghost r -> ghost (do_ev mk mi r e).
 Proof.
@@ -109,51 +125,70 @@ Proof.
       cbn [do_ev]. unfold request. rewrite Hs. reflexivity.
 Qed.
 
-Lemma binv_step b e : negb (is_rename_b e) = true -> binv b -> binv (bstep mk mi final_ops b e).
+Lemma ghost_of_keep b : (b_reset b = false -> ghost (b_run b)) -> keep_reset b = false -> ghost (b_run b).
+Proof.
+  intros Hg Hk. unfold keep_reset in Hk. apply andb_false_iff in Hk. destruct Hk as [Hk|Hk].
+  - apply ghost_idle; exact Hk.
+  - apply Hg; exact Hk.
+Qed.
+
+Lemma binv_step b e : negb (is_rename_b e) = true -> binv b -> binv (bstep mk mi final_ops true b e).
 Proof.
   intros He [Hwf [Hnr [Hsd Hg]]]. apply negb_true_iff in He.
-  destruct e as [e| |].
+  destruct e as [e| | |].
   - (* BE *) cbn [is_rename_b] in He.
     destruct e as [c| |].
     + (* writer *)
       pose proof (not_rename_nr c He) as Hc.
       destruct (do_ev_W mk mi (b_run b) c) as [Hl Hsh].
-      cbn [bstep]. unfold binv, blog. cbn [b_run b_file b_buf]. rewrite Hl.
+      cbn [bstep]. unfold binv, blog. cbn [b_run b_file b_buf b_reset]. rewrite Hl.
       split; [apply exec_wf; exact Hwf|].
       assert (HX : wf (replay (blog b) [])) by (apply replay_wf, wf_nil).
       destruct (logged (snd (exec (r_live (b_run b)) c))) eqn:Hlog.
       * split; [unfold blog in Hnr; rewrite app_assoc, forallb_app, Hnr; cbn; rewrite Hc; reflexivity|].
-        split; [|apply ghost_ev; assumption].
+        split; [|intros Hk; apply ghost_ev; [assumption|assumption|apply ghost_of_keep; assumption]].
         rewrite app_assoc, replay_app. cbn [replay]. apply exec_same_data; assumption.
-      * split; [exact Hnr|]. split; [|apply ghost_ev; assumption].
+      * split; [exact Hnr|]. split; [|intros Hk; apply ghost_ev; [assumption|assumption|apply ghost_of_keep; assumption]].
         eapply same_data_trans; [exact Hsd|]. apply same_data_sym, exec_unlogged_same; assumption.
     + (* a locked section of the scan *)
-      cbn [bstep]. unfold binv, blog. cbn [b_run b_file b_buf].
+      cbn [bstep]. unfold binv, blog. cbn [b_run b_file b_buf b_reset].
       rewrite (do_ev_live_other mk mi (b_run b) Step) by congruence.
-      split; [exact Hwf|]. split; [exact Hnr|]. split; [exact Hsd|]. apply ghost_ev; assumption.
+      split; [exact Hwf|]. split; [exact Hnr|]. split; [exact Hsd|].
+      intros Hk; apply ghost_ev; [assumption|assumption|apply ghost_of_keep; assumption].
     + (* request *)
-      cbn [bstep]. unfold binv, blog. cbn [b_run b_file b_buf].
+      cbn [bstep]. unfold binv, blog. cbn [b_run b_file b_buf b_reset].
       rewrite (do_ev_live_other mk mi (b_run b) Req) by congruence.
-      split; [exact Hwf|]. split; [exact Hnr|]. split; [exact Hsd|]. apply ghost_ev; assumption.
+      split; [exact Hwf|]. split; [exact Hnr|]. split; [exact Hsd|].
+      intros Hk; apply ghost_ev; [assumption|assumption|apply ghost_of_keep; assumption].
   - (* flush *)
-    cbn [bstep]. unfold binv, blog in *. cbn [b_run b_file b_buf]. rewrite app_nil_r.
+    cbn [bstep]. unfold binv, blog in *. cbn [b_run b_file b_buf b_reset]. rewrite app_nil_r.
     split; [exact Hwf|]. split; [exact Hnr|]. split; [exact Hsd|]. exact Hg.
   - (* the final section *)
     destruct (r_shrinking (b_run b) && sh_done (r_sh (b_run b))) eqn:Hc.
     + apply andb_true_iff in Hc. destruct Hc as [Hs Hd].
-      destruct (swap_log_exact mk mi b Hs Hd) as [Hb [Hf Hr]]. cbv zeta in Hb, Hf, Hr.
-      unfold binv, blog. rewrite Hb, Hf, Hr, app_nil_r. cbn [end_rewrite r_live r_shrinking].
-      destruct (Hg Hs) as [s1 [sched1 [H1 [H2 H3]]]].
-      split; [exact Hwf|]. split.
-      * rewrite H3. unfold newfile. rewrite forallb_app. apply andb_true_iff. split.
-        -- apply cset_nr. apply (proj1 (batches_never_repeat mk mi s1 sched1 H1)).
-        -- apply (i_nr s1). apply inv1_run; [exact H2 | apply inv1_init; exact H1].
-      * split; [|intros Hx; cbn in Hx; discriminate].
-        rewrite H3. apply concurrent_partial; [exact H1 | exact H2 | rewrite <- H3; exact Hd].
+      destruct (b_reset b) eqn:Hr.
+      * (* the dataset was reset: the rewrite gives up *)
+        destruct (reset_aborts mk mi final_ops b Hs Hd Hr) as [Hf [Hb [Hrun Hrs]]]. cbv zeta in Hf, Hb, Hrun, Hrs.
+        unfold binv, blog. rewrite Hf, Hb, Hrun. cbn [end_rewrite r_live].
+        split; [exact Hwf|]. split; [exact Hnr|]. split; [exact Hsd|].
+        intros _ Hx. cbn in Hx. discriminate.
+      * destruct (swap_log_exact mk mi true b Hs Hd Hr) as [Hb [Hf [Hrun Hrs]]]. cbv zeta in Hb, Hf, Hrun, Hrs.
+        unfold binv, blog. rewrite Hb, Hf, Hrun, app_nil_r. cbn [end_rewrite r_live r_shrinking].
+        destruct (Hg eq_refl Hs) as [s1 [sched1 [H1 [H2 H3]]]].
+        split; [exact Hwf|]. split.
+        -- rewrite H3. unfold newfile. rewrite forallb_app. apply andb_true_iff. split.
+           ++ apply cset_nr. apply (proj1 (batches_never_repeat mk mi s1 sched1 H1)).
+           ++ apply (i_nr s1). apply inv1_run; [exact H2 | apply inv1_init; exact H1].
+        -- split; [|intros _ Hx; cbn in Hx; discriminate].
+           rewrite H3. apply concurrent_partial; [exact H1 | exact H2 | rewrite <- H3; exact Hd].
     + rewrite final_not_ready by exact Hc. split; [exact Hwf|]. split; [exact Hnr|]. split; [exact Hsd|]. exact Hg.
+  - (* a follower starts over *)
+    cbn [bstep]. unfold binv, blog. cbn [b_run b_file b_buf b_reset r_live r_shrinking app].
+    split; [exact wf_nil|]. split; [reflexivity|]. split; [intros k i; reflexivity|].
+    intros Hk Hx. cbn in Hx. congruence.
 Qed.
 
-Lemma binv_run sched : forall b, no_rename_b sched = true -> binv b -> binv (brun mk mi final_ops sched b).
+Lemma binv_run sched : forall b, no_rename_b sched = true -> binv b -> binv (brun mk mi final_ops true sched b).
 Proof.
   unfold brun. induction sched as [|e sched IH]; intros b Hnr Hb; cbn [fold_left]; [exact Hb|].
   cbn in Hnr. apply andb_true_iff in Hnr. destruct Hnr as [He Hs].
@@ -162,13 +197,13 @@ Qed.
 
 Theorem log_tracks_live s0 f0 sched :
   wf s0 -> forallb nr_cmd f0 = true -> same_data (replay f0 []) s0 -> no_rename_b sched = true ->
-  let b := brun mk mi final_ops sched (binit s0 f0) in
+  let b := brun mk mi final_ops true sched (binit s0 f0) in
   same_data (replay (blog b) []) (r_live (b_run b)).
 Proof.
   intros Hwf Hnr Hsd Hs b.
   assert (H : binv b).
-  { apply binv_run; [exact Hs|]. unfold binv, binit, blog. cbn [b_run b_file b_buf idle r_live r_shrinking].
-    rewrite app_nil_r. split; [exact Hwf|]. split; [exact Hnr|]. split; [exact Hsd|]. intros Hx; discriminate. }
+  { apply binv_run; [exact Hs|]. unfold binv, binit, blog. cbn [b_run b_file b_buf b_reset idle r_live r_shrinking].
+    rewrite app_nil_r. split; [exact Hwf|]. split; [exact Hnr|]. split; [exact Hsd|]. intros _ Hx; discriminate. }
   destruct H as [_ [_ [H _]]]. exact H.
 Qed.
 
@@ -177,9 +212,9 @@ End Inv.
 (* the same for the operations read from the source *)
 Theorem log_tracks_live_src mk mi s0 f0 sched :
   wf s0 -> forallb nr_cmd f0 = true -> same_data (replay f0 []) s0 -> no_rename_b sched = true ->
-  let b := brun mk mi final_ops_src sched (binit s0 f0) in
+  let b := brun mk mi final_ops_src final_guard_src sched (binit s0 f0) in
   same_data (replay (blog b) []) (r_live (b_run b)).
-Proof. rewrite (proj1 final_section_transcribed). apply log_tracks_live. Qed.
+Proof. rewrite (proj1 final_section_transcribed), guard_transcribed. apply log_tracks_live. Qed.
 
 (* ------------------------------------------------------------------ 4. without the flush *)
 
@@ -195,14 +230,33 @@ Definition sched_nf : list bev :=
 
 Theorem swap_without_flush_refuted :
   exists s0 f0 sched, wf s0 /\ replay f0 [] = s0 /\
-    (let b := brun maxkeys maxids final_ops sched (binit s0 f0) in
+    (let b := brun maxkeys maxids final_ops true sched (binit s0 f0) in
      replay (blog b) [] = r_live (b_run b)) /\
-    (let b := brun maxkeys maxids final_ops_noflush sched (binit s0 f0) in
+    (let b := brun maxkeys maxids final_ops_noflush true sched (binit s0 f0) in
      exists k i, lookup k i (replay (blog b) []) <> lookup k i (r_live (b_run b))).
 Proof.
   exists s0_nf, f0_nf, sched_nf. split; [apply wfb_ok; vm_compute; reflexivity|].
   split; [vm_compute; reflexivity|]. split; [vm_compute; reflexivity|].
   exists (b1 99), (b1 49). vm_compute. discriminate.
+Qed.
+
+(* a server with its own data is turned into a follower while its rewrite is parked before the
+   final section: the dataset is reset, the leader streams SET b 1 y; without the guard the stale
+   snapshot is swapped in and a/1 is back after a restart *)
+Definition sched_rs : list bev :=
+  [BE Req; BE Step; BE Step; BE Step; BReset; BE (W (CSet (b1 98) (b1 49) [] false (b1 121))); BFlush; BFinal].
+
+Theorem reset_without_guard_refuted :
+  exists s0 f0 sched, wf s0 /\ replay f0 [] = s0 /\ no_rename_b sched = true /\
+    (let b := brun maxkeys maxids final_ops true sched (binit s0 f0) in
+     replay (blog b) [] = r_live (b_run b) /\ r_live (b_run b) <> []) /\
+    (let b := brun maxkeys maxids final_ops false sched (binit s0 f0) in
+     exists k i, lookup k i (replay (blog b) []) <> lookup k i (r_live (b_run b))).
+Proof.
+  exists s0_nf, f0_nf, sched_rs. split; [apply wfb_ok; vm_compute; reflexivity|].
+  split; [vm_compute; reflexivity|]. split; [vm_compute; reflexivity|].
+  split; [split; [vm_compute; reflexivity | vm_compute; discriminate]|].
+  exists (b1 97), (b1 49). vm_compute. discriminate.
 Qed.
 
 (* ------------------------------------------------------------------ example data for Props/C09.v *)
